@@ -82,7 +82,13 @@ def render_variant(rng, case, raw, style):
         tail = rng.choice(TRAILING) if style.get('trailing') else ''
         if k in LIST_FORM and tail.strip(', \t') and '--' not in tail:
             # for a list-valued parameter text after a further comma is a list entry by design; only '--' starts a comment
-            tail = ', --- [unit] comment'
+            # (with or without a comma between the last value and the dashes; the comment itself may contain commas)
+            # the forms without a comma only where the reader supports them: a list of at least two values (with a single value,
+            # as for any scalar parameter, the text up to the next comma is the value-with-unit field)
+            forms = [', --- [unit] comment', ',\t-- tabbed']
+            if v.count(',') >= 1:
+                forms += [' -- equal layers [km]', ' --- a comment, with, commas', '-- glued to the value']
+            tail = rng.choice(forms)
         lines.append(f'{name},{val}{tail}')
         if style.get('comments') and rng.random() < 0.25:
             lines.append(rng.choice(COMMENT_LINES))
